@@ -10,9 +10,15 @@ import progen
 
 IMPORTS = "Base Token TokEngine Lex Headers Blocks Pairing Fold ScanFile"
 
+_LC = ["// c", "//", "// see nocl below", "/* c */", "/* a } b { */", "/**/"]
+_BL = ["/* a\n   b\n*/", "/*\n * } nocl is not first\n */", "// a\n// b", "// nocl\n// on lines of their own"]
 LINE_COMMENTS = {"Python": ["# c", "#", "# see nocl below", "#!x"],
-                 "default": ["// c", "//", "// see nocl below", "/* c */", "/* a } b { */", "/**/"]}
-BLOCKS = {"Python": ['# a\n# b'], "default": ["/* a\n   b\n*/", "/*\n * } nocl is not first\n */", "// a\n// b"]}
+                 # the JavaScript / TypeScript lexers type the HTML-style opener as a plain Comment token
+                 "JavaScript": _LC + ["<!-- legacy"], "TypeScript": _LC + ["<!-- legacy"],
+                 "default": _LC}
+# a disabled preprocessor region is lexed as Comment tokens (the bare Comment type) by the C / C++ lexers
+_IF0 = ["#if 0\nint old(void) { return 1; }\n#endif", "#if 0\n  x = y;\n#endif"]
+BLOCKS = {"Python": ['# a\n# b', "# nocl\n# on lines of their own"], "C": _BL + _IF0, "Cpp": _BL + _IF0, "default": _BL}
 
 
 def safe_boundaries(lang, text):
@@ -71,6 +77,11 @@ def modify(rng, lang, text):
         r = rng.random()
         if r < 0.7:
             k = rng.choice(ok)
+            # a third of the insertions go right below an existing comment line (a marker comment on a line of its
+            # own must keep marking nothing when the lines around it move)
+            below_comment = [j for j in ok if j >= 2 and lines[j - 2].lstrip().startswith(("//", "#", "/*"))]
+            if below_comment and rng.random() < 0.35:
+                k = rng.choice(below_comment)
             kind = rng.random()
             indent = " " * rng.choice([0, 0, 2, 4, 8, 12])
             if kind < 0.3:
